@@ -10,6 +10,7 @@ import (
 	"go/types"
 	"sort"
 	"strings"
+	"time"
 
 	"golang.org/x/tools/go/ssa"
 )
@@ -289,17 +290,107 @@ func (e *Encoder) applyContract(fr *frame, ct *Contract, args []*SVal, ci ssa.Ca
 	res := e.freshResult("ret."+cname, resT)
 	env2 := e.contractEnv(nil, ct, args, post, pre)
 	env2.result = res
+	env2.callSite = true
+	var posts []*Term
 	for _, cl := range ct.Ensures {
 		t := env2.trClause(cl)
 		e.assume(t)
+		posts = append(posts, t)
+	}
+	// equality propagation: a postcondition conjunct "fresh symbol == term" defines that symbol;
+	// substituting it into the result and the post-state lets the simplifier resolve memory
+	// accesses syntactically instead of leaving the equation to the solver
+	sub := map[*Term]*Term{}
+	var conj func(t *Term)
+	conj = func(t *Term) {
+		if t.Op == "and" {
+			for _, a := range t.Args {
+				conj(a)
+			}
+			return
+		}
+		if t.Op == "=" {
+			a, b := t.Args[0], t.Args[1]
+			isDef := func(x, y *Term) bool {
+				return x.Op == "sym" && freshSuffix(x.Name) >= 0 && (strings.HasPrefix(x.Name, "ret.") || strings.HasPrefix(x.Name, "hv.")) && !mentions(y, x)
+			}
+			if isDef(a, b) {
+				if _, dup := sub[a]; !dup {
+					sub[a] = b
+				}
+			} else if isDef(b, a) {
+				if _, dup := sub[b]; !dup {
+					sub[b] = a
+				}
+			}
+		}
+	}
+	for _, t := range posts {
+		conj(t)
+	}
+	if len(sub) > 0 {
+		// resolve chains (a := f(b), b := g) by iterating a few times
+		for i := 0; i < 4; i++ {
+			for k, v := range sub {
+				sub[k] = c.Subst(v, sub)
+			}
+		}
+		res = e.substVal(res, sub)
+		for cl, t := range post.m {
+			post.m[cl] = c.Subst(t, sub)
+		}
 	}
 	return res
 }
 
+func mentions(t, x *Term) bool {
+	seen := map[*Term]bool{}
+	var rec func(t *Term) bool
+	rec = func(t *Term) bool {
+		if t == x {
+			return true
+		}
+		if seen[t] {
+			return false
+		}
+		seen[t] = true
+		for _, a := range t.Args {
+			if rec(a) {
+				return true
+			}
+		}
+		return false
+	}
+	return rec(t)
+}
+
+// substVal applies a term substitution to every component of a value.
+func (e *Encoder) substVal(v *SVal, m map[*Term]*Term) *SVal {
+	if v == nil {
+		return nil
+	}
+	c := e.c
+	n := *v
+	s := func(t *Term) *Term {
+		if t == nil {
+			return nil
+		}
+		return c.Subst(t, m)
+	}
+	n.T, n.Base, n.Off, n.Len, n.Cap, n.Tag = s(v.T), s(v.Base), s(v.Off), s(v.Len), s(v.Cap), s(v.Tag)
+	if v.Fields != nil {
+		n.Fields = make([]*SVal, len(v.Fields))
+		for i, f := range v.Fields {
+			n.Fields[i] = e.substVal(f, m)
+		}
+	}
+	return &n
+}
+
 // assignLoc is one permitted write location.
 type assignLoc struct {
-	all    bool   // everything under ref
-	ref    *Term  // for all
+	all    bool  // everything under ref
+	ref    *Term // for all
 	typ    types.Type
 	prefix string // class prefix for a single leaf location
 	idx    *Term
@@ -606,6 +697,9 @@ func (e *Encoder) copyBuiltin(fr *frame, dst, src *SVal, ci ssa.CallInstruction)
 	srt := Arr(RefS, Arr(BV64, scalarSort(et)))
 	mem := e.get(e.cur, cls, srt)
 	sa := c.Select(mem, src.Base)
+	if src.K == KString {
+		sa = c.Select(e.get(e.cur, "mem:str", srt), src.Base)
+	}
 	da := c.Select(mem, dst.Base)
 	if n.IsLit() && n.V <= 64 {
 		// unrolled; read all sources first (memmove semantics)
@@ -615,6 +709,23 @@ func (e *Encoder) copyBuiltin(fr *frame, dst, src *SVal, ci ssa.CallInstruction)
 		}
 		for k := uint64(0); k < n.V; k++ {
 			da = c.Store(da, c.BVBin("bvadd", dst.Off, c.BVLit(k, 64)), vals[k])
+		}
+		e.set(e.cur, cls, c.Store(mem, dst.Base, da))
+		return &SVal{K: KScalar, Typ: intT, T: n}
+	}
+	if bound, ok := e.smallBound(n, 64); ok {
+		// bounded symbolic length: conditional stores, no quantifier
+		vals := make([]*Term, bound)
+		for k := 0; k < bound; k++ {
+			vals[k] = c.Select(sa, c.BVBin("bvadd", src.Off, c.BVLit(uint64(k), 64)))
+		}
+		da0 := da
+		for k := 0; k < bound; k++ {
+			kk := c.BVLit(uint64(k), 64)
+			ix := c.BVBin("bvadd", dst.Off, kk)
+			// store of a conditional value (not a conditional array): keeps a pure store chain; the
+			// old value is read from the array before the copy (the k-th index is written only here)
+			da = c.Store(da, ix, c.Ite(c.BVCmp("bvult", kk, n), vals[k], c.Select(da0, ix)))
 		}
 		e.set(e.cur, cls, c.Store(mem, dst.Base, da))
 		return &SVal{K: KScalar, Typ: intT, T: n}
@@ -664,6 +775,9 @@ func (e *Encoder) appendBuiltin(fr *frame, s, t *SVal, ci ssa.CallInstruction) *
 	mem := e.get(e.cur, cls, srt)
 	inner := c.Select(mem, s.Base) // same offsets are kept in the fresh object
 	ta := c.Select(mem, tbase)
+	if t.K == KString {
+		ta = c.Select(e.get(e.cur, "mem:str", srt), tbase)
+	}
 	if tlen.IsLit() && tlen.V <= 64 {
 		for k := uint64(0); k < tlen.V; k++ {
 			kk := c.BVLit(k, 64)
@@ -960,7 +1074,43 @@ func init() {
 			return env.mkBool(env.e.bufValid(args[0], env.state(), 1<<36))
 		},
 		"bufSmall": func(env *Env, n *ast.CallExpr, args []*SVal) *SVal {
-			return env.mkBool(env.e.bufValid(args[0], env.state(), 1<<30))
+			return env.mkBool(env.e.bufValid(args[0], env.state(), 1<<26))
+		},
+		"bufRoom": func(env *Env, n *ast.CallExpr, args []*SVal) *SVal {
+			// bufRoom(b, front, back): no reallocation is needed to prepend front / append back bytes
+			e := env.e
+			c := e.c
+			data := e.sbufField(args[0], env.state(), "data")
+			start := e.sbufField(args[0], env.state(), "start").T
+			front := c.Resize(args[1].T, 64, true)
+			back := c.Resize(args[2].T, 64, true)
+			return env.mkBool(c.And(c.BVCmp("bvsle", front, start), c.BVCmp("bvsle", back, c.BVBin("bvsub", data.Cap, data.Len))))
+		},
+		"bufMedium": func(env *Env, n *ast.CallExpr, args []*SVal) *SVal {
+			return env.mkBool(env.e.bufValid(args[0], env.state(), 1<<31))
+		},
+		"isnew": func(env *Env, n *ast.CallExpr, args []*SVal) *SVal {
+			e := env.e
+			c := e.c
+			x := args[0]
+			if env.callSite {
+				// at a call site the caller hands out a fresh object identity
+				return env.mkBool(c.Eq(x.Base, e.newAlloc()))
+			}
+			return env.mkBool(c.And(c.IsRoot(x.Base), c.IntLe(e.A0, c.RootID(x.Base))))
+		},
+		"window": func(env *Env, n *ast.CallExpr, args []*SVal) *SVal {
+			// window(s, t, lo, hi): s is exactly t[lo:hi], also when empty (same array, same start)
+			c := env.e.c
+			s, t := args[0], args[1]
+			lo := c.Resize(args[2].T, 64, true)
+			hi := c.Resize(args[3].T, 64, true)
+			return env.mkBool(c.And(c.Eq(s.Base, t.Base), c.Eq(s.Off, c.BVBin("bvadd", t.Off, lo)), c.Eq(s.Len, c.BVBin("bvsub", hi, lo)),
+				c.BVCmp("bvsle", c.BVLit(0, 64), lo), c.BVCmp("bvsle", lo, hi), c.BVCmp("bvsle", hi, t.Cap)))
+		},
+		"samebase": func(env *Env, n *ast.CallExpr, args []*SVal) *SVal {
+			c := env.e.c
+			return env.mkBool(c.And(c.Eq(args[0].Base, args[1].Base), c.Eq(args[0].Off, args[1].Off)))
 		},
 		"bufBytes": func(env *Env, n *ast.CallExpr, args []*SVal) *SVal {
 			return env.e.bufBytes(args[0], env.state())
@@ -1005,6 +1155,13 @@ func (e *Encoder) bsumAxioms(t *Term, depth int) {
 		return
 	}
 	e.assumeFact(c.Implies(c.Eq(from, to), c.Eq(t, c.BVLit(0, 8))))
+	// frame: a store outside the summed range does not change the sum
+	if arr.Op == "store" && depth < 12 {
+		ix := arr.Args[1]
+		outside := c.Or(c.BVCmp("bvult", ix, from), c.BVCmp("bvule", to, ix))
+		inner := e.bsum(arr.Args[0], from, to, depth+1)
+		e.assumeFact(c.Implies(c.And(c.BVCmp("bvule", from, to), outside), c.Eq(t, inner)))
+	}
 	if depth < 1 {
 		prev := c.BVBin("bvsub", to, c.BVLit(1, 64))
 		pt := e.bsum(arr, from, prev, depth+1)
@@ -1359,7 +1516,7 @@ func (e *Encoder) sbufField(b *SVal, st *State, name string) *SVal {
 	s := t.Underlying().(*types.Struct)
 	for i := 0; i < s.NumFields(); i++ {
 		if s.Field(i).Name() == name {
-			return e.load(st, e.fieldAddr(b.T, t, i))
+			return e.load(st, e.fieldAddr(e.aggRef(b), t, i))
 		}
 	}
 	panic("serializeBuffer has no field " + name)
@@ -1373,8 +1530,12 @@ func (e *Encoder) bufValid(b *SVal, st *State, limit uint64) *Term {
 	app := e.sbufField(b, st, "appended").T
 	lim := c.BVLit(limit, 64)
 	zero := c.BVLit(0, 64)
-	tag := c.Int(int64(e.w.typeTag(types.NewPointer(e.sbufType()))))
-	return c.And(c.Eq(b.Tag, tag), c.Not(c.Eq(b.T, c.NilRef())),
+	tagOK := c.True()
+	if b.K == KIface {
+		tagOK = c.Eq(b.Tag, c.Int(int64(e.w.typeTag(types.NewPointer(e.sbufType())))))
+	}
+	wholeObject := c.Or(c.Eq(data.Base, c.NilRef()), c.IsRoot(data.Base)) // the backing array is a heap object of its own
+	return c.And(tagOK, wholeObject, c.Not(c.Eq(e.aggRef(b), c.NilRef())),
 		c.BVCmp("bvsle", zero, start), c.BVCmp("bvsle", start, data.Len), c.BVCmp("bvule", data.Len, data.Cap), c.BVCmp("bvule", data.Cap, lim),
 		c.Eq(data.Off, zero), c.BVCmp("bvsle", zero, pre), c.BVCmp("bvsle", pre, lim), c.BVCmp("bvsle", zero, app), c.BVCmp("bvsle", app, lim))
 }
@@ -1384,4 +1545,28 @@ func (e *Encoder) bufBytes(b *SVal, st *State) *SVal {
 	data := e.sbufField(b, st, "data")
 	start := e.sbufField(b, st, "start").T
 	return &SVal{K: KSlice, Typ: types.NewSlice(types.Typ[types.Uint8]), Base: data.Base, Off: c.BVBin("bvadd", data.Off, start), Len: c.BVBin("bvsub", data.Len, start), Cap: c.BVBin("bvsub", data.Cap, start)}
+}
+
+// smallBound asks the solver whether n <= limit holds on the current path and,
+// if so, returns the smallest power-of-two-ish bound found (at most limit).
+func (e *Encoder) smallBound(n *Term, limit int) (int, bool) {
+	c := e.c
+	if n.IsLit() {
+		return int(n.V), n.V <= uint64(limit)
+	}
+	for _, b := range []int{16, 32, 64} {
+		if b > limit {
+			break
+		}
+		as := append([]*Term{}, e.assumptions...)
+		as = append(as, e.guard, c.Not(c.BVCmp("bvule", n, c.BVLit(uint64(b), 64))))
+		res := Solve("bound", c.Script(as, nil, ""), 2*time.Second, false)
+		if res.Status == "unsat" {
+			return b, true
+		}
+		if res.Status != "sat" {
+			break
+		}
+	}
+	return 0, false
 }
